@@ -443,8 +443,9 @@ def copy_and_buffer_probe(ctx):
                 a = mk()
                 a.compute_chunk(x1[: L + L // 2 + 1])          # an utterance in progress, samples buffered
                 cl = dict(common.clone_routes(a))[how]
-                if isinstance(cl, Exception):
-                    raise cl
+                if isinstance(cl, Exception):      # computers that refuse to be copied: no copy, nothing to check
+                    ctx.count("not_copyable:" + how)
+                    continue
                 said_started = bool(cl.started)
                 if said_started:
                     cl.finalize()
